@@ -489,4 +489,56 @@ def irun (w : IWorld) (fuel : Nat) : ISt → List IOp → ISt
   | s, [] => s
   | s, op :: r => irun w fuel (istep w fuel s op).1 r
 
+/-! ### the object the caller passes as `dates=`
+
+`dates=` takes any iterable. What the iterator sees depends on what `iter(x)` returns:
+* `again l`: every `iter(x)` is a fresh cursor over `l` (list, tuple, array, deque, a class with `__iter__` or the sequence
+  protocol, `DateRange`);
+* `once l`: `iter(x) is x` — a single-use iterator that still has `l` to hand out (generator expression, `iter(list)`,
+  `reversed(list)`, `map`, `filter`, `itertools.chain`, and the library's own `Ephem.dates`).
+`AnalyticalPropagator._iter` and `Ephem.iter` walk the caller's object in ONE `for date in dates:`; `KeplerNum._iter` walks it
+in ONE `list(dates)` and works on its own list from there. The number of walks per site is read from the source on every run
+(`Generated.datesWalks`). -/
+
+inductive Src | again (l : List Int) | once (left : List Int)
+deriving DecidableEq, Repr
+
+/-- the dates the object has to hand out -/
+def Src.items : Src → List Int
+  | .again l => l
+  | .once l => l
+
+/-- one complete walk (`for date in x:` run to its end, `list(x)`): the dates seen, the object afterwards -/
+def Src.walk : Src → List Int × Src
+  | .again l => (l, .again l)
+  | .once l => (l, .once [])
+
+/-- `n` complete walks of the same object one after the other: what the LAST one sees, the object afterwards -/
+def Src.walkN : Nat → Src → List Int × Src
+  | 0, s => ([], s)
+  | 1, s => s.walk
+  | n + 2, s => Src.walkN (n + 1) s.walk.2
+
+/-- `iter(dates=x)` consumed to its end by an implementation that walks `x` `walks` times before / while yielding (the
+dates of the last walk are the ones propagated to): the iterator's run and the caller's object afterwards -/
+def iterRunSrc {V : Type} (w : World V) (walks fuel : Nat) (i : Nat) (a : Args) (x : Src) (listening : Bool) : (Bool × Run) × Src :=
+  let r := x.walkN walks
+  (iterRun w fuel i { a with dates := some (.list r.1) } listening, r.2)
+
+/-! ### `for orb in self` — the cursor of an ephemeris walked over its own points
+
+`Ephem.iter` without `step` (and every plain `for orb in ephem`) walks `for orb in self`. `Ephem.__iter__` sets `self._i = -1`
+and returns the ephemeris ITSELF; `__next__` advances `self._i`: one position, stored on the object, for all consumers
+(`shared = true`, the code). `shared = false`: a cursor per consumer, as `iter(self._orbits)` would give. -/
+
+inductive CurOp | start (g : Nat) | pull (g : Nat)
+deriving DecidableEq, Repr
+
+/-- consumers `g` of one ephemeris tabulated at `pts`, interleaved: `start g` = its `for` statement begins (`iter(self)`),
+`pull g` = it asks for its next point (`none`: StopIteration). `pos g` = the position consumer `g` reads next. -/
+def curRun (shared : Bool) (pts : List Int) : (Nat → Nat) → List CurOp → List (Nat × Option Int)
+  | _, [] => []
+  | pos, .start g :: r => curRun shared pts (fun k => if shared || k = g then 0 else pos k) r
+  | pos, .pull g :: r => (g, pts[pos g]?) :: curRun shared pts (fun k => if shared || k = g then pos g + 1 else pos k) r
+
 end BeyondVerif.Iter
